@@ -1,7 +1,12 @@
 """C01 - swarm membership and counts follow the announce history."""
 from hist_common import HIST_REASONS, HIST_TAGS, HIST_ASSUMPTIONS, HIST_RULE
+from conc_common import conc_part
 
 PROP = {
+    # "fully processed" also covers requests that were in flight together (and instances sharing one Redis): the final
+    # membership of the schedule-forced scenarios must be that of some sequential ordering
+    "parts": [conc_part("chk01c", 100, 3000)],
+    "mutex_rewrite": True,
     "glue": "GH", "chk": "chk01", "explain": "explainH",
     "gotags": ["shim_memory", "shim_redis", "shim_timecache"],
     "n": {"quick": 120, "thorough": 3000},
@@ -14,6 +19,6 @@ PROP = {
 CLAIM = {
     "text": "Coq theorems: for EVERY history of store operations and every shard count the memory store's observations (scrape counts, the membership AnnouncePeers selects from) equal those of the specification - one swarm map keyed by infohash x family whose clauses (seeder listed, leecher listed, completed moves, stopped removes, expiry removes, counts reported, other swarms untouched, no empty swarm) are proved as separate theorems; the Redis store's sequential model refines the same specification (Proofs/RedisP.v). The models are tied to storage/memory, storage/redis, middleware/hooks.go on every run by executing generated histories through middleware.Logic and the stores (memory 1/2/7/1024 shards; Redis on miniredis with 1-3 instances) and evaluating the same histories in the model AND in the specification inside Coq, including full membership dumps.",
     "design_ref": "DESIGN.md section 8, C01",
-    "note": "Trusted: Coq kernel+vm_compute, Glue/GH.v, Go driver, overlay shims (VerifDump/VerifShards/VerifGC), miniredis standing in for Redis. Several tracker instances sharing one Redis: the model has no per-instance state, which is checked by the multi-instance histories, not proved. Concurrency is C04's subject.",
+    "note": "Trusted: Coq kernel+vm_compute, Glue/GH.v, Go driver, overlay shims (VerifDump/VerifShards/VerifGC), miniredis standing in for Redis. Several tracker instances sharing one Redis: the model has no per-instance state, which is checked by the multi-instance histories, not proved. Concurrency proper is C04's subject; C01 only re-uses its schedule-forced scenarios for the membership reached once all operations have finished (reasons 41, 42, 54).",
     "technique": "Coq refinement/invariant proofs over executable Gallina store models + differential history correspondence (vm_compute)",
 }
